@@ -129,7 +129,7 @@ pub fn run_blocking(sc: &StreamScenario) -> StreamOutcome {
                     }
                 }
             },
-            AppOp::Write(frame) | AppOp::Handshake(frame) => {
+            AppOp::Write(frame) | AppOp::Handshake(frame) | AppOp::WriteCancel { frame, .. } => {
                 let Some(p) = packet_for(sc, frame) else {
                     continue;
                 };
@@ -302,9 +302,13 @@ pub fn run_tokio(sc: &StreamScenario) -> StreamOutcome {
                         }
                     }
                 },
-                AppOp::Write(frame) | AppOp::Handshake(frame) => {
+                AppOp::Write(frame) | AppOp::Handshake(frame) | AppOp::WriteCancel { frame, .. } => {
                     let Some(p) = packet_for(sc, frame) else {
                         continue;
+                    };
+                    let cancel_after: Option<u32> = match a {
+                        AppOp::WriteCancel { polls, .. } => Some(*polls),
+                        _ => None,
                     };
                     push(Ev::OpStart { op });
                     let mut fut: Pin<Box<dyn Future<Output = insim::Result<()>> + '_>> =
@@ -316,6 +320,13 @@ pub fn run_tokio(sc: &StreamScenario) -> StreamOutcome {
                         };
                     let mut polls = 0u32;
                     loop {
+                        if let Some(k) = cancel_after {
+                            if polls >= k {
+                                drop(fut);
+                                push(Ev::OpCancelled { op, polls });
+                                break;
+                            }
+                        }
                         if polls >= POLL_BUDGET {
                             push(Ev::Budget { op });
                             break;
